@@ -3,7 +3,7 @@ CONSTANTS
   Rate <- RateV
   Cap <- CapV
   Gap <- GapV
-  Writers = {1, 2}
+  Writers = {1, 2, 3}
   Sizes <- Sizes2
   InitBucket <- InitV
   AdvSteps <- AdvV
@@ -17,3 +17,4 @@ INVARIANT NoDup
 INVARIANT AllWritten
 INVARIANT Prompt
 INVARIANT InOrder
+INVARIANT StrictShadow
